@@ -11,7 +11,8 @@ demo=$(ls $out/m$k-demo.py $out/m$k-demo.sh $out/m$k-demo.rs 2>/dev/null | head 
 rundemo() { case "$demo" in *.py) timeout 900 python3 "$demo";; *.sh) timeout 900 bash "$demo";; *.rs) dest=$(grep -ohE "(nextest-[a-z-]+|cargo-nextest|integration-tests)/tests/[A-Za-z0-9_]+\.rs" $out/m$k-meta.txt | head -1)
         [ -z "$dest" ] && { echo "rust demo: no destination found in meta"; return 99; }
         crate=${dest%%/*}; stem=$(basename $dest .rs); cp "$demo" "$wt/$dest"
-        (cd $wt && timeout 1800 cargo test --offline -p $crate --test $stem); rc=$?; rm -f "$wt/$dest"; return $rc;; *) timeout 900 bash "$demo";; esac; }
+        feat=""; grep -q "verif-hooks" $out/m$k-meta.txt "$demo" 2>/dev/null && feat="--features verif-hooks"
+        (cd $wt && timeout 1800 cargo test --offline -p $crate $feat --test $stem); rc=$?; rm -f "$wt/$dest"; return $rc;; *) timeout 900 bash "$demo";; esac; }
 git apply --check $out/m$k.patch >> $log 2>&1 || { echo "$p m$k PATCH-DOES-NOT-APPLY"; exit 1; }
 git apply $out/m$k.patch
 cargo build --offline -p cargo-nextest >> $log 2>&1 || { echo "$p m$k BUILD-FAILS"; git checkout -q -- .; exit 1; }
